@@ -444,6 +444,12 @@ class Multiplexer(wiring.Component):
                 for chunk_offset, chunk_registers in registers.items():
                     chunk = Multiplexer._Shadow.Chunk(self, chunk_offset, chunk_registers)
                     self._chunks[chunk_offset] = chunk
+            elif self._size > max(reg_range.stop for reg_range in ranges):
+                # Every address bit already takes part in the decoding: the offsets do not change
+                # anymore if the shadow grows further, so the constraint can never be satisfied.
+                raise ValueError(f"Shadow register {self.name!r} cannot be balanced: the CSR "
+                                 f"registers {ranges!r} always share a chunk with more than "
+                                 f"{self.overlaps} other register(s)")
             else:
                 self._size *= 2
                 self.prepare()
